@@ -65,7 +65,7 @@ def regen(skip=()):
     if skip:
         cmd += ['--skip', ','.join(sorted(skip))]
     rc, out, err = run(cmd, timeout=300)
-    st = {'fatal': None, 'failed': {}, 'effects': (True, ''), 'api': (True, '')}
+    st = {'fatal': None, 'failed': {}, 'effects': (True, ''), 'api': (True, ''), 'coord': (True, '')}
     if rc == 3:
         st['fatal'] = out.strip()
         return st
@@ -92,6 +92,13 @@ def regen(skip=()):
         st['api'] = (False, out3.strip()[-600:])
     elif rc3 != 0:
         raise Infra(f'api2lean.py crashed rc={rc3}: {err3[-2000:]}')
+    # the coordinate classes (C15), regenerated from geodepy/coord.py
+    rc4, out4, err4 = run(['python3', os.path.join(VERIF, 'translator', 'coord2lean.py'), '--repo', REPO, '--out',
+                           os.path.join(LEAN, 'GeodeVerif', 'GenF', 'Coord.lean')], timeout=120)
+    if rc4 == 3:
+        st['coord'] = (False, out4.strip()[-600:])
+    elif rc4 != 0:
+        raise Infra(f'coord2lean.py crashed rc={rc4}: {err4[-2000:]}')
     return st
 
 
@@ -103,7 +110,7 @@ def base_fn(name):
 def gen_decl_to_skip(e):
     """a Lean error inside a generated file: the translated function it belongs to ('Module.fn'), or None"""
     m = re.search(r'Gen[FRQ]/(\w+)\.lean$', e['file'])
-    if not m or not e.get('decl') or m.group(1) in ('Dispatch', 'Effects', 'Api'):
+    if not m or not e.get('decl') or m.group(1) in ('Dispatch', 'Effects', 'Api', 'Coord'):
         return None
     decl = e['decl'].replace('«', '').replace('»', '')
     try:
@@ -311,6 +318,10 @@ def check_property(pid, tier_):
                 # app.py has left the translated subset: the theorems about its regenerated reading cannot be checked
                 broken.append({'kind': 'translator', 'what': 'api2lean.py: ' + st['api'][1]})
                 more_mods = [m for m in more_mods if m not in P.get('api_modules', ())]
+            if P.get('needs_coord') and not st['coord'][0]:
+                # coord.py has left the translated subset: the theorems about its regenerated reading cannot be checked
+                broken.append({'kind': 'translator', 'what': 'coord2lean.py: ' + st['coord'][1]})
+                more_mods = [m for m in more_mods if m not in P.get('coord_modules', ())]
             targets = ([module] if module else []) + P.get('extra_modules', []) + more_mods
             bok, btxt = lake_build(targets) if (targets and build_ok) else (build_ok, '')
             if not bok:
@@ -561,7 +572,7 @@ def count_theorems(module):
 def setup():
     with Lock():
         st = regen()
-        if st['fatal'] or st['failed'] or not st['effects'][0] or not st['api'][0]:
+        if st['fatal'] or st['failed'] or not st['effects'][0] or not st['api'][0] or not st['coord'][0]:
             log('setup: translator failed: ' + json.dumps(st)[:2000])
             return 2
         import propdefs
